@@ -285,8 +285,12 @@ class Mpo(MatrixProduct):
         # evaluate the symbolic mpo
         assert model.basis is not None
 
+        mo_mat_list = []
         for impo, mo in enumerate(self.symbolic_mpo):
-            mo_mat = symbolic_mo_to_numeric_mo(model.basis[impo], mo, self.dtype)
+            mo_mat_list.append(symbolic_mo_to_numeric_mo(model.basis[impo], mo, self.dtype))
+        # the local matrices can be complex even if all of the factors are real
+        self.dtype = np.result_type(self.dtype, *[mo_mat.dtype for mo_mat in mo_mat_list])
+        for mo_mat in mo_mat_list:
             self.append(mo_mat)
 
 
